@@ -321,6 +321,9 @@ func genAolHistory(r *RNG, nBlocks int) []string {
 			}
 			g.add("TX %s %s", fee, strings.Join(sg2, ","))
 			g.lines = append(g.lines, mlines...)
+			if g.clean && r.Chance(4) { // otherwise acceptable, but the signatures are not over this transaction
+				g.add("SIGMOD %s", pick(r, []string{"corrupt", "otherbody"}))
+			}
 			g.add("ENDTX")
 		}
 		// a burst: one listed writer appends 11-18 records to one topic (three per transaction), so that offsets of two
